@@ -43,7 +43,7 @@ Proof.
     inversion Hm; subst mo. cbn [o_opcode set_value] in Hop. contradiction. }
   assert (Hm0 : tget (p_tree s) m = Some mo).
   { unfold s' in Hm. pcbn_in Hm. rewrite get_tset in Hm. apply N.eqb_neq in Hmc. rewrite Hmc in Hm. exact Hm. }
-  destruct (HTM m mo Hm0 Hop (fun E => Hmc (eq_sym E))) as (a0 & a1 & rest & a0o & a1o & vv & Hk & Ha0 & Hn0 & Ha1 & Hv & Hn1').
+  destruct (HTM m mo Hm0 Hop (fun E => Hmc (eq_sym E))) as (a0 & a1 & rest & a0o & a1o & vv & Hk & Ha0 & Hn0 & Ha1 & Hv & Hn1' & Hmx).
   assert (Ha1c : a1 <> curObj) by (apply (Hn1 m mo a0 a1 rest Hm0 Hop Hk)).
   assert (Hget : forall i o, tget (p_tree s) i = Some o -> exists o', tget (p_tree s') i = Some o' /\ pnv o o' /\ (i <> curObj -> o' = o)).
   { intros i o Ho. unfold s'. pcbn. rewrite get_tset, Ho. cbn [option_map]. destruct (N.eqb_spec i curObj) as [->|Hne].
@@ -51,7 +51,8 @@ Proof.
     - exists o. split; [reflexivity|]. split; [apply pnv_refl|auto]. }
   destruct (Hget a0 a0o Ha0) as (a0o' & Ha0' & E0 & _). destruct (Hget a1 a1o Ha1) as (a1o' & Ha1' & E1 & E1').
   rewrite (E1' Ha1c) in Ha1'.
-  exists a0, a1, rest, a0o', a1o, vv. split; [exact Hk|]. split; [exact Ha0'|]. split; [eapply nodefer_pnv; eauto|]. auto.
+  exists a0, a1, rest, a0o', a1o, vv. split; [exact Hk|]. split; [exact Ha0'|]. split; [eapply nodefer_pnv; eauto|].
+  split; [exact Ha1'|]. split; [exact Hv|]. split; [exact Hn1'|]. apply (mx_pnv g g a0 a0o a0o' a1o a1o E0 (pnv_refl _) eq_refl Hmx).
 Qed.
 
 Lemma prefix_not_method op : op = aml_pOpBytePrefix \/ op = aml_pOpWordPrefix \/ op = aml_pOpDwordPrefix \/ op = aml_pOpQwordPrefix \/ op = aml_pOpStringPrefix ->
